@@ -556,7 +556,7 @@ def generate(workdir, prop, tier, rng):
                  % (", 2 times, 2 stmts, BEGIN/COMMIT/ROLLBACK" if withtx else ", 3 times, 3 stmts", len(b), d, w))
     states += d
     trans += g
-    add(b, (500 if prop != "C08" else 150) if tier == "quick" else 12000)
+    add(b, (500 if prop != "C08" else 150) if tier == "quick" else (12000 if prop != "C08" else 3000))
     if prop == "C15":
         # one writer, every order of 4 write times over 4 statements on one key (repeated / decreasing write times)
         b, d, g, w = vf.gen_behaviours(workdir, "S3db", cfg_text(["w1"], ["k1"], 4, 4, 0, 1), name="gen_single")
@@ -570,7 +570,7 @@ def generate(workdir, prop, tier, rng):
     notes.append("S3db large -simulate (3 writers, 2 keys, 5 times, 5 stmts): %d behaviours, %.0fs" % (len(b), w))
     states += d
     trans += g
-    add(b, (500 if prop != "C08" else 150) if tier == "quick" else 12000)
+    add(b, (500 if prop != "C08" else 150) if tier == "quick" else (12000 if prop != "C08" else 3000))
     scen = [instrument(prop, x, i, rng) for i, x in enumerate(behs)]
     if prop == "C15":
         cs, d, g, cnotes = conn_scenarios(workdir, tier, rng)
